@@ -12,7 +12,7 @@ from ..pxv import Obj, Sym
 from ..te import ClassRef, FuncRef, Member, TypeRef
 from .ash_link import ASH, ash_cls, dispatch_classes, frame_obj, inline_ash, upward
 from .util import anchor_attrs
-from .util import const, fut, self_obj, text, who_may_call
+from .util import const, fut, same_class, self_obj, text, who_may_call
 
 # ------------------------------------------------------------------ specification (UG101), written independently
 SPEC_RESERVED = {0x7E: "FLAG", 0x7D: "ESCAPE", 0x11: "XON", 0x13: "XOFF", 0x18: "SUBSTITUTE", 0x1A: "CANCEL"}
@@ -341,7 +341,7 @@ def r03_6(ctx):
     # append_crc on symbolic data
     f = repo.func(f"{ASH}:AshFrame.append_crc")
     ctx.fn(f)
-    px = PX(repo, inline=lambda fr, aw: False)
+    px = PX(repo, inline=same_class())
     for p in px.explore(f, lambda: (None, {"data": Sym("D")})):
         crc = [e for e in p.events if e.kind == "call" and e.what.endswith("crc_hqx")]
         tb = [e for e in p.events if e.kind == "call" and e.what.endswith(".to_bytes")]
@@ -357,7 +357,7 @@ def r03_6(ctx):
     for d in (b"", b"\x80", b"\x80\x70"):
         p = run1(ctx, cpx, f, lambda: repo.cls(ASH, "AshFrame"), {"data": d})
         ctx.require(p.raised("ParsingError"), f"unwrap-short({len(d)})", f"_unwrap of {len(d)} bytes -> {p.terminal} {p.value!r}", func=f)
-    px = PX(repo, inline=lambda fr, aw: False, facts={"(3 < len(D))": True, "(len(D) < 3)": False})
+    px = PX(repo, inline=same_class(), facts={"(3 < len(D))": True, "(len(D) < 3)": False})
     paths = px.explore(f, lambda: (repo.cls(ASH, "AshFrame"), {"data": Sym("D")}))
     ctx.anchor(any(p.terminal == "return" for p in paths), "_unwrap has a returning path")
     for p in paths:
@@ -380,7 +380,7 @@ def r03_6(ctx):
     # every from_bytes goes through _unwrap before building its instance
     for cn in dispatch_classes(ctx):
         c, m = _cls_method(ctx, cn, "from_bytes")
-        px = PX(repo, inline=lambda fr, aw: False)
+        px = PX(repo, inline=same_class(stop=("_unwrap",)))
         for p in px.explore(m, lambda: (c, {"data": Sym("D")})):
             i = p.index(lambda e: e.kind == "call" and e.what.endswith("._unwrap"))
             j = p.index(lambda e: e.kind == "new")
@@ -560,7 +560,13 @@ def _scan_models(ctx):
             return Outcomes(missing)
         return Outcomes(found, missing)
 
-    return [("next", Outcomes(*[OK((Sym("i"), m)) for m in rwe], RAISE("StopIteration"))),
+    def scan_next(px, t, a, k, fr):
+        # the scanner's search for the first reserved byte: one outcome per reserved value, or nothing found - which is
+        # StopIteration for next(it) and the default for next(it, default)
+        nothing = OK(a[1]) if len(a) > 1 else RAISE("StopIteration")
+        return Outcomes(*[OK((Sym("i"), m)) for m in rwe], nothing)
+
+    return [("next", scan_next),
             ("*.partition", part),
             ("*.index", lambda px, t, a, k, fr: Outcomes(OK(Sym("flagpos")), RAISE("ValueError"))),
             ("*.find", lambda px, t, a, k, fr: Outcomes(OK(Sym("flagpos")), OK(-1))),
@@ -661,6 +667,8 @@ def r02_2(ctx):
                 idx = "i"
                 if nx:
                     o = nx[0].extra
+                    if not (isinstance(o, tuple) and len(o) == 2) and not (isinstance(o, str) and o.startswith("raises")):
+                        o = "raises StopIteration"  # next(it, default) returned the default: nothing found
                 else:
                     picks = [(t, v) for t, v in p.assumes if t.startswith("member:")]
                     chosen = [(t, v) for t, v in picks if v is not None]
@@ -724,10 +732,12 @@ def r02_2(ctx):
                         elif flag is not (r == "SUBSTITUTE"):
                             bad = f"discard-until-flag is {flag!r} after {r}"
                     else:  # XON / XOFF
-                        popped = len(pops) == 1 and pops[0].callee == f"{cur}.pop" and pops[0].args[:1] == (Sym(idx),)
+                        dels = [e for e in p.events if e.kind == "write" and e.what.endswith(".__delitem__")]
+                        popped = (len(pops) == 1 and not dels and pops[0].callee == f"{cur}.pop" and pops[0].args[:1] == (Sym(idx),)) or \
+                                 (len(dels) == 1 and not pops and dels[0].callee == f"{cur}.__delitem__" and dels[0].args[:1] == (Sym(idx),))
                         sliced = buf == Sym(f"({cur}[None:{idx}] + {cur}[({idx} + 1):None])")
                         if not ((popped and buf == Sym(cur)) or sliced):
-                            bad = f"{r}: buffer edit is {buf!r} / {[e.brief() for e in pops]}, must remove only that byte"
+                            bad = f"{r}: buffer edit is {buf!r} / {[e.brief() for e in pops + dels]}, must remove only that byte"
                         elif unst or dlv or wr or flag is not False:
                             bad = f"{r} has side effects beyond removing the byte"
             if bad and bad.startswith("UNRECOGNISED"):
